@@ -40,6 +40,19 @@ def z_family(rng, fam, n):
         return 10.0 ** rng.uniform(-6, 6, size=n) * np.exp(1j * rng.uniform(np.pi / 2, 3 * np.pi / 2, size=n))
     if fam == "near_contour":
         return (1.0 + rng.uniform(-0.3, 0.3, size=n)) * np.exp(1j * rng.uniform(np.pi / 2, 3 * np.pi / 2, size=n))
+    if fam == "contour_nodes":
+        # symbols sitting exactly on (or next to) a node of the documented contour  z = -r * root_j  (r = 1, M = 16): left half plane only
+        nodes = -P.roots(16)
+        nodes = nodes[nodes.real <= 0]
+        base = np.concatenate([nodes, nodes * (1 + 1e-6), nodes + 1e-3, nodes * (1 - 1e-2)])
+        return np.tile(base, int(np.ceil(n / len(base))))[:n].astype(complex)
+    if fam == "special":
+        # exactly representable landmarks: the unit circle at multiples of pi/16 (where an *un-rotated* contour would put its nodes), +-1, small integers and halves, tiny offsets
+        ang = np.exp(1j * np.pi * np.arange(8, 25, 2) / 16)
+        base = np.concatenate([ang, [1.0, -1.0, 2.0, -2.0, 0.5, -0.5, 3.0, -3.0, 1j, -1j, 2j, -2j, 0.0], -1.0 + np.array([1e-2, -1e-2, 1e-4, -1e-4]), 1.0 + np.array([1e-2, -1e-2, 1e-4, -1e-4]),
+                               0.9999 * np.array([1.0, -1.0]), np.pi * 1j * np.array([1.0, -1.0, 1.5, 2.0, 3.0, 7.5])]).astype(complex)
+        reps = int(np.ceil(n / len(base)))
+        return np.tile(base, reps)[:n]
     if fam == "mixed":
         z = np.concatenate([z_family(rng, f, n // 4 + 1) for f in ("real_neg", "imag", "lhp", "real_pos")])[:n]
         z[0] = 0.0
@@ -49,7 +62,7 @@ def z_family(rng, fam, n):
 
 def cases(tier, seed):
     out = []
-    fams = ["real_neg", "real_pos", "imag", "lhp", "near_contour", "mixed"]
+    fams = ["real_neg", "real_pos", "imag", "lhp", "near_contour", "mixed", "special", "contour_nodes"]
     reps = 1 if tier == "quick" else 4
     n = 48 if tier == "quick" else 160
     for order in (1, 2, 3, 4):
@@ -92,10 +105,22 @@ def judge_coefs(bus, monitor, integ, order, z, dt, eps, sig, info, M=16, r=1.0):
         want = dt * fac * ref[fname]
         kappa, trunc = P.contour_conditioning(z, fname, M=M, r=r)
         tol = abs(dt) * fac * (C_TOL * eps * kappa + 4 * trunc)
-        judged = tol <= 1e-3 * np.abs(want)
-        if not np.all(np.isfinite(got)):
-            bus.flag(monitor, f"non-finite {cname}", sig + (cname,), witness=dict(info, z=z[~np.isfinite(got)][:3]))
+        mag = np.abs(want) + abs(dt) * fac / (1 + np.abs(z)) ** (2 if fname == "b" else 1)      # natural magnitude of the coefficient near z (phi functions have isolated zeros, e.g. phi_1(2 pi i) = 0)
+        judged = tol <= 1e-3 * mag
+        node_dist = np.min(np.abs(z[..., None] + r * P.roots(M)), axis=-1)          # distance of z to the nearest node of the contour z + r*root_j = 0
+        # ill-conditioned entries are not judged against the exact value - unless the result is outright wrong (NaN / error above 1e-6): that is the
+        # breakdown of the documented contour rule next to its own nodes, a genuine defect reachable only by complex symbols with |z| ~ r
+        broken = (~judged) & (~np.isfinite(got) | (np.abs(got - want) > max(1e-6, 3e4 * eps) * mag))
+        if broken.any():
+            i = int(np.argmax(broken.reshape(-1)))
+            bus.flag(monitor, f"{cname}: contour evaluation breaks down next to a contour node", sig + (cname, "ill-conditioned"),
+                     witness=dict(info, coef=cname, z=complex(z.reshape(-1)[i]), got=repr(complex(got.reshape(-1)[i])), want=complex(want.reshape(-1)[i]),
+                                  node_dist=float(node_dist.reshape(-1)[i]), max_node_dist_of_broken=float(np.max(node_dist[broken])), broken_entries=int(broken.sum())))
+        bad_fin = judged & ~np.isfinite(got)
+        if bad_fin.any():
+            bus.flag(monitor, f"non-finite {cname}", sig + (cname,), witness=dict(info, z=z[bad_fin][:3], node_dist=float(np.min(node_dist[bad_fin]))))
             continue
+        got = np.where(np.isfinite(got), got, want)
         if judged.sum() == 0:
             bus.skip(monitor, "all ill-conditioned")
             continue
@@ -116,6 +141,12 @@ def judge_coefs(bus, monitor, integ, order, z, dt, eps, sig, info, M=16, r=1.0):
         tol = C_TOL * eps * (1 + np.abs(z)) * np.abs(ref["e"]) + 16 * tiny
         ratio = np.where(ok, np.abs(np.broadcast_to(e, z.shape) - ref["e"]) / tol, 0)
         bus.judge(monitor, float(ratio.max()), 1.0, sig + ("_exp_term",), witness=dict(info, coef="_exp_term"), nontrivial=nonreal)
+        if hasattr(integ, "_half_exp_term"):       # exp(z/2): the propagator of the half-step stages (orders 3, 4)
+            eh = np.asarray(integ._half_exp_term).astype(complex)
+            tolh = C_TOL * eps * (1 + np.abs(z) / 2) * np.abs(ref["eh"]) + 16 * tiny
+            ratio = np.where(ok, np.abs(np.broadcast_to(eh, z.shape) - ref["eh"]) / tolh, 0)
+            i = int(np.argmax(ratio))
+            bus.judge(monitor, float(ratio.max()), 1.0, sig + ("_half_exp_term",), witness=dict(info, coef="_half_exp_term", z=complex(z.reshape(-1)[i]), got=complex(np.broadcast_to(eh, z.shape).reshape(-1)[i]), want=complex(ref["eh"].reshape(-1)[i])), nontrivial=nonreal)
 
 
 def run_coef(case, bus, ex):
@@ -136,7 +167,7 @@ def run_coef(case, bus, ex):
     judge_coefs(bus, "coef_exact", integ, order, z, dt, eps, (order, fam, "x64" if x64 else "f32", "dt=1" if dt == 1 else "dt!=1"),
                 dict(order=order, family=fam, dt=dt, dtype=str(cd.__name__)))
     if order == 4:   # documented aliasing of the half-step coefficients
-        same = bool(np.array_equal(np.asarray(integ._coef_1), np.asarray(integ._coef_2)) and np.array_equal(np.asarray(integ._coef_1), np.asarray(integ._coef_3)))
+        same = bool(np.array_equal(np.asarray(integ._coef_1), np.asarray(integ._coef_2), equal_nan=True) and np.array_equal(np.asarray(integ._coef_1), np.asarray(integ._coef_3), equal_nan=True))
         (bus.ok if same else bus.flag)("coef_exact", *( [("etdrk4_half_step_alias",)] if same else ["coef_2/3 differ from coef_1", ("etdrk4_half_step_alias",)]))
 
 
@@ -358,6 +389,8 @@ def run_case(case, bus, ex):
 def classify(v):
     """Known-finding classifier (mechanism, not case): F1 = imaginary part of the coefficients dropped."""
     w = v.get("witness") or {}
+    if v["monitor"] in ("coef_exact", "coef_stepper") and w.get("max_node_dist_of_broken") is not None and w["max_node_dist_of_broken"] < 0.2:
+        return "F9-contour-node-breakdown"
     if v["monitor"] in ("coef_exact", "coef_stepper") and isinstance(w.get("got"), list) and isinstance(w.get("want"), list):
         g, r = complex(*w["got"]), complex(*w["want"])
         if g.imag == 0.0 and abs(r.imag) > 0 and abs(g.real - r.real) <= max(w.get("tol", 0), 1e-9 * abs(r)):
